@@ -187,6 +187,89 @@ theorem authenticate_outcome_vector (d : ε) (srcs : List σ) (os : List (Out ε
     simp only [ho', Bool.false_eq_true, if_false]
     rw [attempted_of_failure _ (by rw [hany]; exact ho')]
 
+/-! ## several `authenticate()` calls on the same strategy object
+
+Model with object identity (`Obj.heap`): each call's outcome is the one-shot specification of *that call's* sources
+(and the world state it starts from) for **every prior history**, the result object is a fresh one, and no result
+object handed out by an earlier call is ever changed. -/
+
+private theorem appendCell_last {α : Type} (pre : List (List α)) (c : List α) (x : α) :
+    appendCell (pre ++ [c]) pre.length x = pre ++ [c ++ [x]] := by
+  induction pre with
+  | nil => rfl
+  | cons p ps ih => simp [appendCell, ih]
+
+private theorem heapLoop_spec (auth : σ → S → Out ε ρ × S) (pre : List (List (σ × Out ε ρ)))
+    (srcs : List σ) (c : List (σ × Out ε ρ)) (s : S) :
+    heapLoop auth pre.length srcs { heap := pre ++ [c], st := s } =
+      ({ heap := pre ++ [c ++ attempted (trace auth srcs s)], st := stAfter auth srcs s },
+       (trace auth srcs s).any (·.2.isOk)) := by
+  induction srcs generalizing c s with
+  | nil => simp [heapLoop, trace, attempted, stAfter]
+  | cons x xs ih =>
+    simp only [heapLoop, appendCell_last, trace, attempted, stAfter, List.any_cons]
+    by_cases hok : (auth x s).1.isOk = true
+    · simp [hok]
+    · have hok' : (auth x s).1.isOk = false := by simpa using hok
+      simp only [hok', Bool.false_eq_true, if_false, Bool.false_or]
+      rw [ih]
+      simp [List.append_assoc]
+
+/-- **One call, any prior history.**  Whatever result objects already exist (`o.heap`) and whatever state the world
+is in: the call allocates a new object, leaves every existing one untouched, and fills the new one with exactly the
+one-shot result of this call's sources. -/
+theorem authCall_spec (auth : σ → S → Out ε ρ × S) (srcs : List σ) (o : Obj σ ε ρ S) :
+    authCall auth srcs o =
+      ({ heap := o.heap ++ [attempted (trace auth srcs o.st)], st := stAfter auth srcs o.st },
+       o.heap.length, (trace auth srcs o.st).any (·.2.isOk)) := by
+  unfold authCall
+  have := heapLoop_spec auth o.heap srcs [] o.st
+  simp only [List.nil_append] at this
+  simp only [this]
+
+/-- the object handed out and the way the call ends are those of the one-shot `authenticate` on this call's sources -/
+theorem authCall_eq_one_shot (auth : σ → S → Out ε ρ × S) (srcs : List σ) (o : Obj σ ε ρ S) :
+    (let r := authCall auth srcs o
+     if r.2.2 then Final.returned (r.1.heap.getD r.2.1 []) else Final.authFailure (r.1.heap.getD r.2.1 []))
+      = authenticate auth srcs o.st := by
+  rw [authCall_spec, authenticate_spec]
+  simp
+
+/-- **A whole history of calls on one strategy object.**  Afterwards the heap consists of the objects that existed
+before — unchanged — followed by one object per call, the k-th holding exactly the one-shot result of the k-th
+call's sources (run from the world state that call started in); the identities handed out are fresh and distinct. -/
+theorem session_spec (auth : σ → S → Out ε ρ × S) (calls : List (List σ)) (o : Obj σ ε ρ S) :
+    (session auth calls o).1.heap =
+      o.heap ++ List.zipWith (fun srcs s => attempted (trace auth srcs s)) calls (statesOf auth calls o.st) ∧
+    (session auth calls o).2 =
+      List.zipWith (fun (i : Nat) (p : List σ × S) => (o.heap.length + i, (trace auth p.1 p.2).any (·.2.isOk)))
+        (List.range calls.length) (calls.zip (statesOf auth calls o.st)) := by
+  induction calls generalizing o with
+  | nil => simp [session, statesOf]
+  | cons srcs rest ih =>
+    simp only [session, authCall_spec, statesOf]
+    obtain ⟨h1, h2⟩ := ih { heap := o.heap ++ [attempted (trace auth srcs o.st)], st := stAfter auth srcs o.st }
+    refine ⟨?_, ?_⟩
+    · rw [h1]; simp [List.append_assoc]
+    · rw [h2]
+      simp only [List.length_cons, List.range_succ_eq_map, List.zip_cons_cons, List.zipWith_cons_cons,
+        Nat.add_zero, List.zipWith_map_left, List.length_append, List.length_singleton]
+      congr 2
+      funext i p
+      simp only [List.length_nil, Prod.mk.injEq, and_true]
+      omega
+
+/-- result objects handed out by earlier calls are never changed by later calls -/
+theorem earlier_results_unchanged (auth : σ → S → Out ε ρ × S) (calls : List (List σ)) (o : Obj σ ε ρ S) :
+    o.heap <+: (session auth calls o).1.heap := by
+  rw [(session_spec auth calls o).1]
+  exact List.prefix_append _ _
+
+/-- two calls on a fresh strategy: the second result lists only the second call's attempts, the first is intact -/
+example : (session (scripted 0) [["a", "b"], ["c", "d"]]
+      (⟨[], [Out.err 1, Out.err 2, Out.err 3, Out.ok "yes"]⟩ : Obj String Nat String (List (Out Nat String)))).1.heap
+    = [[("a", .err 1), ("b", .err 2)], [("c", .err 3), ("d", .ok "yes")]] := by decide
+
 /-! ## non-vacuity -/
 
 /-- three sources: A raises, B succeeds, C is never tried -/
